@@ -168,19 +168,19 @@ void sweep_aes(const char *expect) {
     {"00000000000000000000000000000000", "f34481ec3cc627bacd5dc3fb08f273e6", "0336763e966d92595a567cc9ce537f5e", "AESAVS GFSbox #0"},
     {"10a58869d74be5a374cf867cfb473859", "00000000000000000000000000000000", "6d251e6944b051e04eaa6fb4dbf78465", "AESAVS KeySbox #0"},
     {"00000000000000000000000000000000", "00000000000000000000000000000000", "66e94bd4ef8a2c3b884cfa59ca342b2e", "all-zero"} };
-  for (auto &t : kat) { uint8_t k[16], p[16]; unhex16(t.k, k); unhex16(t.p, p); aes_one(k, p, t.c, nullptr, std::string("KAT[") + t.src + "]"); }
+  if (g_part == 0) for (auto &t : kat) { uint8_t k[16], p[16]; unhex16(t.k, k); unhex16(t.p, p); aes_one(k, p, t.c, nullptr, std::string("KAT[") + t.src + "]"); }
   sample("aes KAT FIPS-197 C.1 key=000102..0f block=00112233..ff -> 69c4e0d86a7b0430d8cdb78070b4c55a, invcipher back");
   // all single-bit keys x single-bit blocks (bit b = byte b/8, mask 0x80 >> b%8): 16384 pairs, C++ reference and python reference
-  for (int kb = 0; kb < 128 && !out_of_time(); kb++) for (int pb = 0; pb < 128; pb++) { uint8_t k[16] = {0}, p[16] = {0}; k[kb / 8] = (uint8_t)(0x80 >> (kb % 8)); p[pb / 8] = (uint8_t)(0x80 >> (pb % 8));
+  for (int kb = 0; kb < 128 && !out_of_time(); kb++) if (kb % g_nparts == g_part) for (int pb = 0; pb < 128; pb++) { uint8_t k[16] = {0}, p[16] = {0}; k[kb / 8] = (uint8_t)(0x80 >> (kb % 8)); p[pb / 8] = (uint8_t)(0x80 >> (pb % 8));
     auto it = g_expect.find("B:" + std::to_string(kb) + ":" + std::to_string(pb)); if (it == g_expect.end()) { viol("harness-expect-entry-missing", "B:" + std::to_string(kb) + ":" + std::to_string(pb)); continue; }
     aes_one(k, p, nullptr, &it->second, "bit"); }
   sample("aes all 128 single-bit keys x 128 single-bit blocks vs FIPS-197 reference (C++) and pure-python AES; invcipher(cipher(x))==x");
   if (thorough()) {
     // single-bit keys x blocks with one byte set to each value (16 x 256), and keys with one byte set to each value x single-bit blocks
-    for (int kb = 0; kb < 128 && !out_of_time(); kb++) for (int pos = 0; pos < 16; pos++) for (int v = 0; v < 256; v++) { uint8_t k[16] = {0}, p[16] = {0}; k[kb / 8] = (uint8_t)(0x80 >> (kb % 8)); p[pos] = (uint8_t)v; aes_one(k, p, nullptr, nullptr, "bitkey-x-byteblock"); }
-    for (int pos = 0; pos < 16 && !out_of_time(); pos++) for (int v = 0; v < 256; v++) for (int pb = 0; pb < 128; pb++) { uint8_t k[16] = {0}, p[16] = {0}; k[pos] = (uint8_t)v; p[pb / 8] = (uint8_t)(0x80 >> (pb % 8)); aes_one(k, p, nullptr, nullptr, "bytekey-x-bitblock"); }
+    for (int kb = 0; kb < 128 && !out_of_time(); kb++) if (kb % g_nparts == g_part) for (int pos = 0; pos < 16; pos++) for (int v = 0; v < 256; v++) { uint8_t k[16] = {0}, p[16] = {0}; k[kb / 8] = (uint8_t)(0x80 >> (kb % 8)); p[pos] = (uint8_t)v; aes_one(k, p, nullptr, nullptr, "bitkey-x-byteblock"); }
+    for (int pos = 0; pos < 16 && !out_of_time(); pos++) for (int v = 0; v < 256; v++) if (v % g_nparts == g_part) for (int pb = 0; pb < 128; pb++) { uint8_t k[16] = {0}, p[16] = {0}; k[pos] = (uint8_t)v; p[pb / 8] = (uint8_t)(0x80 >> (pb % 8)); aes_one(k, p, nullptr, nullptr, "bytekey-x-bitblock"); }
     // patterned full-entropy keys/blocks
-    for (int a = 0; a < 64 && !out_of_time(); a++) for (int b = 0; b < 64; b++) { std::vector<uint8_t> k = pattern(5, 16 + (size_t)a), p = pattern(2, 16 + (size_t)b); aes_one(k.data(), p.data(), nullptr, nullptr, "patterned"); }
+    for (int a = 0; a < 64 && !out_of_time(); a++) if (a % g_nparts == g_part) for (int b = 0; b < 64; b++) { std::vector<uint8_t> k = pattern(5, 16 + (size_t)a), p = pattern(2, 16 + (size_t)b); aes_one(k.data(), p.data(), nullptr, nullptr, "patterned"); }
   }
   printf("@INFO aes key/block pairs evaluated: %llu\n", g_aes_pairs);
 }
